@@ -25,7 +25,7 @@ U("c09_asset_new", ["C09"], "h_asset", ["C09/asset.c"], ["writer.c"], plain=True
   min_obligations=5, timeout=200, cost=5, assumptions=[NOFAIL])
 
 for _dot in (0, 1):
-    U("c09_odf_manifest_assets_%s" % ("ext" if _dot else "noext"), ["C09"], "h_manifest", ["C09/manifest.c"], ["opendocument.c"], plain=True, lib=(), kind="bounded",
+    U("c09_odf_manifest_assets_%s" % ("ext" if _dot else "noext"), ["C09", "C08"], "h_manifest", ["C09/manifest.c"], ["opendocument.c"], plain=True, lib=(), kind="bounded",
       defines=["-DI18N_DISABLED=1", "-DURL_HAS_DOT=%d" % _dot], cbmc_flags=["--unwind", "40", "--unwindset", "d_string_append_printf.0:122", "--unwinding-assertions", "--object-bits", "12"],
       bounds={"assets": "one (URL %s an extension)" % ("with" if _dot else "without"), "format": "any"},
       functions=["opendocument_manifest_file"], callees={"d_string_*": "contract stubs (formatter arguments must be valid strings; the URL is not written)", "HASH_ITER (uthash)": "real macro code over a real one-entry table", "opendocument_style": "stub"},
@@ -37,4 +37,13 @@ U("c09_traverse_for_images_offsets", ["C09"], "h_traverse", ["C09/traverse.c"], 
   functions=["traverse_for_images"],
   callees={"d_string_replace_text_in_range": "contract stub (C19): returns the length change; checks the range it is given", "clean_string": "contract stub", "HASH_FIND_STR (uthash)": "real macro code over a real one-entry table",
            "stack_peek_index/stack_new": "body", "memcpy": "byte-loop model"},
+  min_obligations=10, timeout=300, cost=15, assumptions=[NOFAIL])
+
+# ---- sub_asset_paths: the image pass starts at the length change of the css replacement
+U("c09_sub_asset_paths_css_offset", ["C09"], "h_sub_paths", ["C09/sub_paths.c"], ["textbundle.c", "stack.c"], plain=True, lib=("lib/libc_models.c",), kind="bounded", drop_bodies=["traverse_for_images"],
+  defines=["-DI18N_DISABLED=1"], cbmc_flags=["--unwind", "40", "--unwinding-assertions", "--object-bits", "12"],
+  bounds={"shape": "one 'css' metadata record naming the one stored asset; BLOCK_META followed by a paragraph", "metadata span, length change": "symbolic"},
+  functions=["sub_asset_paths"],
+  callees={"d_string_replace_text_in_range": "contract stub (C19): returns the length change; checks the range and the replacement", "traverse_for_images": "contract stub recording *offset at entry (its contract: c09_traverse_for_images_offsets)",
+           "HASH_FIND_STR (uthash)": "real macro code over a real one-entry table", "stack_peek_index/stack_new/stack_push": "body", "memcpy/strcmp": "byte-loop models", "token_skip_until_type": "contract stub"},
   min_obligations=10, timeout=300, cost=15, assumptions=[NOFAIL])
